@@ -69,6 +69,31 @@ CHECKS["C01"] = (
     "Trusts mpmath.expm; SolveUnc's uncoupled path is out of scope below x = 1e-3 (property statement); "
     "repeated eigenvalues are not generated for the complex-eigen path (documented limitation); physical "
     "forms carry a cond(Phi)^2 factor because the solver sees rounded transformed matrices.", "3/C01")
+CHECKS["C20"] = (
+    "Hypothesis-seeded (p, c, n, r) cases incl. textbook values, exact ties and corners; oracles: "
+    "non-central t CDF by its defining integral (mpmath.quad), own chi-square/normal quantiles, exact "
+    "integer binomial tails; monotonicity / limit / mirror metamorphic relations; broadcast vs scalar",
+    "Generated-input search: ksingle must satisfy nct_cdf(sqrt(n) k; n-1, sqrt(n) z_p) = c with the CDF "
+    "evaluated independently from its defining integral at 25 digits; kdouble must solve its documented "
+    "coverage equations; both increase with p and c and approach the normal quantile as n grows; "
+    "order_stats answers for r, c, p, n are checked against exact binomial tails (returned integer "
+    "extremal, neighbour fails, ties accept either) and round-tripped; array arguments must equal "
+    "element-wise scalar calls.",
+    "Domain limited to where scipy's nct.ppf is itself accurate (n <= 2000, p, c in [1e-3, 1-1e-5]); "
+    "'from above' is checked for p >= 0.5 (false for p < 0.5 by symmetry; the mirror relation is checked "
+    "instead).", "3/C20")
+CHECKS["C18"] = (
+    "exhaustive enumeration of set-expression pairs on tables containing every base set + Hypothesis "
+    "USET tables / DOF requests / matrices; oracle = independent set-lattice model and brute-force "
+    "definitions of the locate helpers",
+    "Generated-input search: every ordered (major, minor) pair of documented set names and '+' "
+    "expressions is checked exhaustively on USET tables holding every base set (and on tables lacking "
+    "one), random tables built by addgrid/make_uset (per-grid letters, per-DOF 6-letter strings, scalar "
+    "points, user sets) are checked for the partition identities, mksetpv/mkdofpv/expanddof are compared "
+    "with a plain-Python set model, and the locate helpers are compared with brute-force definitions on "
+    "matrices with deliberate duplicates, +-0.0 and index vectors of every shape.",
+    "Trusts refs/setlattice.py (transcribed from the documented hierarchy). Docstrings are read literally; "
+    "behaviours they leave open (which duplicate is returned, ...) are not demanded.", "3/C18")
 
 NOT_APPLICABLE = {
 }
